@@ -42,6 +42,12 @@ type ledBatch struct {
 	Flood bool `json:"flood"`
 	// Server: behaviour of the fake OpenRGB server ("" | "nocontroller" | "other"), see fakeORGB.mode
 	Server string `json:"server"`
+	// SlowOutUs > 0: the device writes its MIDI output into a one-slot channel that the harness reads one message per
+	// SlowOutUs microseconds (a slow port): a burst such as panic's 129 messages outlasts an LED refresh cycle
+	SlowOutUs int `json:"slow_out_us"`
+	// Ctrl: the name the fake OpenRGB server gives its controller ("" = "verif keyboard"); the device treats some
+	// controllers specially (a light bar that is kept dark)
+	Ctrl string `json:"ctrl"`
 }
 
 type ledStep struct {
@@ -165,7 +171,11 @@ func cmdLed(args []string) error {
 			return err
 		}
 		for _, walk := range b.Walks {
-			srv, err := newFakeORGB("verif keyboard", "/dev/"+b.Hidraw, names)
+			ctrl := b.Ctrl
+			if ctrl == "" {
+				ctrl = "verif keyboard"
+			}
+			srv, err := newFakeORGB(ctrl, "/dev/"+b.Hidraw, names)
 			if err != nil {
 				return err
 			}
@@ -180,7 +190,11 @@ func cmdLed(args []string) error {
 				[]evdev.EvType{evdev.EV_SYN, evdev.EV_KEY, evdev.EV_MSC, evdev.EV_LED, evdev.EV_REP})
 			idev := input.Device{Name: "verif", DeviceType: input.KeyboardDevice, Handlers: []input.Handler{{Name: "", DeviceInfo: di}},
 				AbsInfos: map[string]map[evdev.EvCode]evdev.AbsInfo{b.Event: {}}}
-			d := device.NewDevice(idev, config.DeviceConfig{ConfigFile: "verif", ConfigType: "user", Config: conf}, r.out, midiIn,
+			devOut := r.out
+			if b.SlowOutUs > 0 {
+				devOut = r.tightOutput(1, time.Duration(b.SlowOutUs)*time.Microsecond)
+			}
+			d := device.NewDevice(idev, config.DeviceConfig{ConfigFile: "verif", ConfigType: "user", Config: conf}, devOut, midiIn,
 				true, srv.Port, r.sigs)
 			r.dev = &d
 			go func() {
